@@ -412,7 +412,9 @@ def comprehension(ex, node, fr, flavour):
         gval, grc = merged_value(ex, gres, K.Bool)
         if grc is not None:
             raise OutOfSubset('comprehension condition may raise')
-        guard = gval.t
+        guard = z3.simplify(gval.t)
+        if z3.is_true(guard):
+            guard = None
     identity = (flavour != 'dict' and isinstance(node.elt, ast.Name) and isinstance(gen.target, ast.Name)
                 and node.elt.id == gen.target.id)
     if identity:
